@@ -3,7 +3,8 @@
 # compares the result with the stable baseline (/root/.vp/BASELINE.json).
 # Exit 0 iff every stable-pass test of the baseline passes.
 set -u
-cd /repo
+REPO_DIR="${BASELINE_REPO:-/repo}"
+cd "$REPO_DIR"
 export CARGO_NET_OFFLINE=true
 unset RUSTFLAGS
 OUT=$(mktemp -d)
@@ -26,7 +27,7 @@ import json, sys, glob, os, xml.etree.ElementTree as ET
 out = sys.argv[1]
 base = json.load(open('/root/.vp/BASELINE.json'))
 want = set(base['stable_pass'])
-cands = glob.glob('/repo/target/nextest/pb/junit.xml')
+cands = glob.glob(os.environ.get("BASELINE_REPO", "/repo") + "/target/nextest/pb/junit.xml")
 if not cands:
     print('baseline_off: no junit output; log tail:'); print(open(os.path.join(out,'log')).read()[-3000:]); sys.exit(2)
 root = ET.parse(cands[0]).getroot()
@@ -52,7 +53,7 @@ for m in missing:
     ok = False
     for _ in range(8):
         r = subprocess.run(['cargo', 'nextest', 'run', '--offline', '-p', crate, '-E', 'test(=%s)' % test, '--test-threads', '1'],
-                           cwd='/repo', stdout=subprocess.PIPE, stderr=subprocess.STDOUT, text=True)
+                           cwd=os.environ.get("BASELINE_REPO", "/repo"), stdout=subprocess.PIPE, stderr=subprocess.STDOUT, text=True)
         if r.returncode == 0 and '1 passed' in r.stdout:
             ok = True
             break
